@@ -14,6 +14,9 @@ Inductive case :=
 | UpdFlag (mk mck : Z) (member bmk bmck signed store_ok : bool)
       (key : string) (upd : bool) (v : bool) (ok : bool) (code : Z) (before after : bool)
       (others_changed other_kind_changed : list string)
+| SetUpd (is_flag : bool) (key : string) (cur arg : bool) (ok : bool) (code : Z)
+    (* set_market_config_updatable(is_flag, key, arg) by a MARKET_KEEPER; cur = the permission of that key according to
+       the history of earlier successful grants / revocations in this store *)
 | UpdBuf (mk mck : Z) (member bmk bmck signed store_ok bstore_ok bowner_ok : bool) (expiry now : Z)
       (entries : list (option string * bool * Z * Z * Z))      (* decoded key, updatable, new value, value before, value after *)
       (ok : bool) (code : Z) (others_changed other_kind_changed : list string).
@@ -51,6 +54,11 @@ Definition corr_b (c : case) : bool :=
                        (fun _ => before) key v with
       | Ok c' => ok && Bool.eqb after (c' key)
       | Err e => negb ok && (code =? real_code e) && Bool.eqb after before
+      end
+  | SetUpd is_flag key cur arg ok code =>
+      match set_updatable (fun k => smem k (if is_flag then config_flags else config_keys)) (fun _ => cur) key arg with
+      | Ok upd' => ok && Bool.eqb (upd' key) arg
+      | Err e => negb ok && (code =? real_code e)
       end
   | UpdBuf mk mck member bmk bmck signed store_ok bstore_ok bowner_ok expiry now entries ok code oc okc =>
       nil_b oc && nil_b okc &&
@@ -93,6 +101,11 @@ Definition oracle_b (c : case) : bool :=
       (if ok
        then signed && valid && entitled_one mk mck member bmk bmck upd && Bool.eqb after v
        else Bool.eqb after before && negb (signed && store_ok && valid && entitled_one mk mck member bmk bmck upd))
+  | SetUpd is_flag key cur arg ok code =>
+      (* a grant / revocation succeeds exactly when it changes the permission; a no-op request is PreconditionsAreNotMet *)
+      if smem key (if is_flag then config_flags else config_keys)
+      then (if Bool.eqb cur arg then negb ok && (code =? 6008) else ok)
+      else negb ok
   | UpdBuf mk mck member bmk bmck signed store_ok bstore_ok bowner_ok expiry now entries ok code oc okc =>
       let decodable := forallb (fun x => match x with (Some _, _, _, _, _) => true | _ => false end) entries in
       let all_upd := forallb (fun x => match x with (Some _, u, _, _, _) => u | _ => false end) entries in
